@@ -9,6 +9,8 @@ correspondence).  `PState.kinds` is the token-kind sequence a parser state is lo
 All proofs are in `Lemmas/C04Lemmas.lean`; this file only states the property theorems.
 -/
 import TgModel.Lemmas.C04Lemmas
+import TgModel.Lemmas.C04AccLemmas
+import TgModel.Lemmas.C04ConvLemmas
 import TgModel.Lemmas.C04Findings
 
 namespace Tg.C04
@@ -106,5 +108,146 @@ example : (PState.init C04L.Frag.sampleText).kinds = C04L.Frag.sample.render := 
 
 example : ∃ r, parse C04L.Frag.sampleText = .ok r ∧ r.errors = [] :=
   forward_partial _ C04L.Frag.sample (by decide +kernel)
+
+/-! ### the accessor clause: every constituent is reachable, in source order, through the typed accessors
+
+`AstWalk.walkTree` (AstWalk.lean, over the regenerated `asts!` table) lists everything reachable from
+the root through accessors only.  `C04L.reached` is the same listing with structure
+(`walkTree t = (reached t).map fmt`, `C04L.walkTree_eq`); `C04L.allNodes t` lists every node of the tree
+below the root as (start, kind, end). -/
+
+/-- **every node of the tree of a fragment program is reached by the accessor walk** -/
+theorem accessors_reach_all (input : List Char) (p : C04L.Frag.Program)
+    (h : (PState.init input).kinds = p.render) :
+    ∃ r, parse input = .ok r ∧ r.errors = [] ∧
+      ∀ x ∈ C04L.allNodes r.tree, ∃ label, (label, x) ∈ C04L.reached r.tree :=
+  C04L.accessors_reach_all input p h
+
+/-- the same in terms of the lines `AstWalk.walkTree` prints -/
+theorem accessors_reach_all_printed (input : List Char) (p : C04L.Frag.Program)
+    (h : (PState.init input).kinds = p.render) :
+    ∃ r, parse input = .ok r ∧ r.errors = [] ∧
+      ∀ x ∈ C04L.allNodes r.tree, ∃ label, C04L.fmt (label, x) ∈ AstWalk.walkTree r.tree :=
+  C04L.accessors_reach_all_printed input p h
+
+/-- the structured listing is the printed one -/
+theorem walkTree_is_reached (t : Tree) : AstWalk.walkTree t = (C04L.reached t).map C04L.fmt :=
+  C04L.walkTree_eq t
+
+/-- **source order** (any tree, any node, any accessor): what one accessor returns is a sublist of the
+child nodes, with non-overlapping byte ranges in increasing order -/
+theorem accessor_source_order (off : Nat) (cs : List Tree) (f : AstTable.Field) :
+    (AstWalk.select f.sel ((AstWalk.childNodes off cs).filter fun c => f.casts.contains c.2.1)).Pairwise
+      (fun a b => a.1 + AstWalk.listLen a.2.2 ≤ b.1) :=
+  C04L.accessor_source_order off cs f
+
+/-- strictly increasing start offsets, wherever the nodes an accessor returns are non-empty -/
+theorem accessor_source_order_strict (off : Nat) (cs : List Tree) (f : AstTable.Field)
+    (hpos : ∀ a ∈ AstWalk.select f.sel ((AstWalk.childNodes off cs).filter fun c => f.casts.contains c.2.1),
+      0 < AstWalk.listLen a.2.2) :
+    (AstWalk.select f.sel ((AstWalk.childNodes off cs).filter fun c => f.casts.contains c.2.1)).Pairwise
+      (fun a b => a.1 < b.1) :=
+  C04L.accessor_source_order_strict off cs f hpos
+
+/-- the local criterion behind `accessors_reach_all`: in the tree of a fragment program every node hands
+each of its child nodes to one of its accessors (`C04L.goodT`, decidable on a concrete tree) -/
+theorem every_node_accessible (input : List Char) (p : C04L.Frag.Program)
+    (h : (PState.init input).kinds = p.render) :
+    ∃ r, parse input = .ok r ∧ r.errors = [] ∧ C04L.goodT r.tree = true :=
+  C04L.forward_tree input p h
+
+example : ∃ r, parse C04L.Frag.sampleText = .ok r ∧ r.errors = [] ∧
+    ∀ x ∈ C04L.allNodes r.tree, ∃ label, (label, x) ∈ C04L.reached r.tree :=
+  accessors_reach_all _ C04L.Frag.sample (by decide +kernel)
+
+/-- the sample's tree has 798 nodes below the root and the walk lists 798 entries (kernel evaluation of the
+parser model and of the walk) -/
+example : (match parse C04L.Frag.sampleText with
+    | .ok r => decide ((C04L.allNodes r.tree).length = 798) && decide ((C04L.reached r.tree).length = 798)
+    | _ => false) = true := by decide +kernel
+
+/-! ### the converse, widened: statement skeletons with `Value` abstract
+
+`C04L.DV V` is derivability in the documented grammar extended by "every word of `V` is a `Value`"
+(`C04L.DV.of`: it contains the documented grammar).  `C04L.VW w`: `w` is what some clean run of the `value`
+parser consumed.  `C04L.Skel` = `include`, `defvar`, `dump`, `assert`, `class`; `sk.shape` is the side
+condition under which what the parser takes is what the documented rule has (one string after `include`;
+for `class`: `C04L.classShape` — no `code` type, body `;`, no `<>`, no `,>`, no parent with arguments). -/
+
+/-- **converse, partial** (statement skeletons): if the statement parser reports nothing new, what it
+consumed derives from the documented nonterminal — every `Value` inside being whatever a clean run of the
+`value` parser consumed -/
+theorem statement_skeleton_converse (sk : C04L.Skel) (input : List Char) (fuel : Nat) (s s' : PState)
+    (hinv : Inv input s) (h : exec defs Tables.recoverTokens fuel (.call sk.fn) s = .ok s')
+    (hclean : s'.errors = s.errors) :
+    ∃ w, s.kinds = w ++ s'.kinds ∧ (sk.shape w → C04L.DV C04L.VW (.nt sk.nt) w) :=
+  C04L.statement_skeleton_converse sk input fuel s s' hinv h hclean
+
+/-- the same with the hypothesis `ValueOK` ("whatever a clean run of `value` consumes is a documented
+`Value`") spelled out: plain derivability.  `ValueOK` is a hypothesis, not a fact about the parser: the
+value parser takes trailing commas and empty lists that the documented `Value` lacks, so use
+`statement_skeleton_converse` together with `value_word_literal` when the values are literals. -/
+theorem statement_skeleton_converse_partial (ValueOK : C04L.ValueOK) (sk : C04L.Skel) (input : List Char)
+    (fuel : Nat) (s s' : PState) (hinv : Inv input s)
+    (h : exec defs Tables.recoverTokens fuel (.call sk.fn) s = .ok s') (hclean : s'.errors = s.errors) :
+    ∃ w, s.kinds = w ++ s'.kinds ∧ (sk.shape w → Doc.Derives (.nt sk.nt) w) :=
+  C04L.statement_skeleton_converse_partial ValueOK sk input fuel s s' hinv h hclean
+
+/-- the extended grammar contains the documented one, and collapses to it when every admitted word is a
+documented `Value` -/
+theorem extended_grammar (V : List TokenKind → Prop) (e : Doc.E) (w : List TokenKind) :
+    (Doc.Derives e w → C04L.DV V e w) ∧
+    ((∀ v, V v → Doc.Derives (.nt .Value_) v) → C04L.DV V e w → Doc.Derives e w) :=
+  ⟨C04L.DV.of, fun hV h => C04L.DV.collapse hV h⟩
+
+/-- **`ValueOK` on one-token literals** (run form): at a literal token (integer, string, code fragment,
+`true`/`false`, `?`, identifier) not followed by `{`, `[`, `.`, `<`, `#` or another string, a clean run of
+`value` consumes exactly that token, a documented `Value` -/
+theorem value_ok_literal (fuel : Nat) (s s' : PState)
+    (h : exec defs Tables.recoverTokens fuel (.call .value) s = .ok s') (hclean : s'.errors = s.errors)
+    (k : TokenKind) (rest : List TokenKind) (hk : s.kinds = k :: rest) (hcur : s.cur = k)
+    (hlit : k ∈ C04L.litToks) (hf : C04L.litValFollow (rest.headD .Eof) = true) :
+    s'.kinds = rest ∧ Doc.Derives (.nt .Value_) [k] :=
+  C04L.value_ok_literal fuel s s' h (by unfold C04L.Clean; rw [hclean]; exact Nat.le_refl _) k rest hk hcur hlit hf
+
+/-- **`ValueOK` on one-token literals** (word form): the part of `ValueOK` that concerns words starting
+with a literal token holds -/
+theorem value_word_literal : C04L.ValueOKOn C04L.LitWord :=
+  C04L.value_ok_literals
+
+/-! non-vacuity: each statement function run on a concrete text (kernel evaluation of the parser model):
+no error, everything consumed, the shape condition holds — so the consumed tokens derive -/
+
+example : C04L.DV C04L.VW (.nt .Class_)
+    (PState.init "class A<int x = 1, list<bit> y> : B, C;".toList).kinds :=
+  C04L.skeleton_on_input .cls _ 400 (by decide +kernel) (by decide +kernel)
+
+example : C04L.DV C04L.VW (.nt .Class_) (PState.init "class A;".toList).kinds :=
+  C04L.skeleton_on_input .cls _ 400 (by decide +kernel) (by decide +kernel)
+
+example : C04L.DV C04L.VW (.nt .Dump_) (PState.init "dump \"x\";".toList).kinds :=
+  C04L.skeleton_on_input .dump _ 400 (by decide +kernel) trivial
+
+example : C04L.DV C04L.VW (.nt .Defvar_) (PState.init "defvar a = [1, 2];".toList).kinds :=
+  C04L.skeleton_on_input .defvar _ 400 (by decide +kernel) trivial
+
+example : C04L.DV C04L.VW (.nt .Assert_) (PState.init "assert c, \"msg\";".toList).kinds :=
+  C04L.skeleton_on_input .assert _ 400 (by decide +kernel) trivial
+
+example : C04L.DV C04L.VW (.nt .Include_) (PState.init "include \"a.td\"".toList).kinds :=
+  C04L.skeleton_on_input .incl _ 400 (by decide +kernel) (by decide +kernel)
+
+/-- the shape conditions bite: the parser takes these cleanly, the documented rule does not have them -/
+example : C04L.runsClean .cls "class A<int x,>;".toList 400 = true ∧
+    ¬ C04L.classShape (PState.init "class A<int x,>;".toList).kinds := by
+  constructor <;> decide +kernel
+
+example : C04L.runsClean .cls "class A<code c>;".toList 400 = true ∧
+    ¬ C04L.classShape (PState.init "class A<code c>;".toList).kinds := by
+  constructor <;> decide +kernel
+
+/-- `ValueOK` itself would be too much to ask: the `value` parser takes `[1,]` cleanly -/
+example : C04L.okAnd (exec defs Tables.recoverTokens 400 (.call .value) (PState.init "[1,]".toList))
+    (fun s' => decide (s'.errors.length = 0) && decide (s'.kinds.length = 0)) = true := by decide +kernel
 
 end Tg.C04
